@@ -1,4 +1,4 @@
-CONSTANTS MinLen = 5 MaxLen = 5 Letters = {0, 1, 2} ParSet = {3} Mode = "fixed"
+CONSTANTS MinLen = 1 MaxLen = 4 Letters = {0, 1, 2} ParSet = {3, 1} Mode = "fixed"
 SPECIFICATION Spec
 INVARIANT Shape
 INVARIANT CertifiedOptimumReturned
